@@ -393,6 +393,24 @@ class SymBool:
 
     __hash__ = None
 
+    def all(self, *a, **k):
+        return self
+
+    def any(self, *a, **k):
+        return self
+
+    @property
+    def shape(self):
+        return ()
+
+    @property
+    def ndim(self):
+        return 0
+
+    @property
+    def size(self):
+        return 1
+
     def __repr__(self):
         return 'SymBool(%s)' % (self.t,)
 
